@@ -26,7 +26,7 @@ func c16Prop(st *CaseStats, fam int) func(t *rapid.T) {
 		sc.LenEqFreq = true // the property's stated domain
 		cfg := CaseCfg{Family: fam, MaxDocs: 8, MaxIn: 3, HoldAny: true}
 		depth := rapid.SampledFrom([]int{0, 1, 1, 2, 3}).Draw(t, "depth")
-		if fam != FamSmall {
+		if fam == FamBlocks || fam == FamWide {
 			cfg.MaxIn = 2
 			depth = rapid.SampledFrom([]int{0, 1}).Draw(t, "depth")
 		}
@@ -41,6 +41,20 @@ func c16Prop(st *CaseStats, fam int) func(t *rapid.T) {
 		}
 		if d := Diff(c.Exp, obs, Facets{Stats: true}); d != "" {
 			t.Fatalf("%s:\n  %s", desc, d)
+		}
+		// statistics describe THIS segment's documents whatever is built afterwards
+		if rapid.Bool().Draw(t, "buildLater") {
+			later := GenBatch(t, sc, 6)
+			if _, err := Build(later, sc.Norm, 1025); err != nil {
+				t.Fatalf("%s: later build: %v", desc, err)
+			}
+			obs2, err := Observe(c.Seg, ProbeFields, Facets{Stats: true})
+			if err != nil {
+				t.Fatalf("%s: %v", desc, err)
+			}
+			if d := Diff(c.Exp, obs2, Facets{Stats: true}); d != "" {
+				t.Fatalf("%s:\n  after building another batch {%s}: %s", desc, later, d)
+			}
 		}
 		// Merge adds component-wise
 		f1 := rapid.SampledFrom(ProbeFields).Draw(t, "f1")
@@ -92,4 +106,10 @@ func TestC16Wide(t *testing.T) {
 	st := NewStats("C16Wide", c16Rule)
 	defer st.Flush()
 	rapid.Check(t, c16Prop(st, FamWide))
+}
+
+func TestC16Mid(t *testing.T) {
+	st := NewStats("C16Mid", c16Rule)
+	defer st.Flush()
+	rapid.Check(t, c16Prop(st, FamMid))
 }
